@@ -55,6 +55,12 @@ def handle : Handler := fun op args =>
   | "c19.sublist" => withArgs (do let l ← pInts; let a ← pInt; let b ← pNat; pure (l, a, b)) args fun (l, a, b) =>
       let r := subList l a b
       "ok " ++ toString r.length ++ " " ++ showInts r
+  | "c19.sublistd" => withArgs (do let l ← pRats; let a ← pInt; let b ← pNat; pure (l, a, b)) args fun (l, a, b) =>
+      let r := subList l a b
+      "ok " ++ toString r.length ++ " " ++ showRats r
+  | "c19.sublists" => withArgs (do let l ← pList tok; let a ← pInt; let b ← pNat; pure (l, a, b)) args fun (l, a, b) =>
+      let r := subList l a b
+      "ok " ++ toString r.length ++ " " ++ " ".intercalate r
   | "c19.flatten" => withArgs (pList pInts) args fun ls =>
       let r := flatten ls
       "ok " ++ toString r.length ++ " " ++ showInts r
